@@ -415,6 +415,12 @@ static void run_ops(unit_t *me)
                 while (!g_cb_entered)
                     self_yield(me);
                 break;
+            case 'd': /* wait until unit i exists and its function has been entered */
+                while (!g_u[i].created || g_u[i].entries == 0) {
+                    self_yield(me);
+                    usleep(20);
+                }
+                break;
             case 'q': /* wait until somebody has called ABT_xstream_join on ES i, and a little longer so that the
                        * request has been posted */
                 while (!g_join_issued[i & 15]) {
